@@ -3,7 +3,7 @@ import ast
 
 from sa.core import (AnalysisError, FUNC, assignments, call_name, class_attr, const, dotted, enclosing, enclosing_func,
                      enclosing_stmt, is_attr, is_name, is_self_attr, literal, norm, params, parent, walk_local, names_in, ancestors)
-from sa.guards import facts, split, enclosing_loops, in_loop_orelse
+from sa.guards import canon_test, facts, split, enclosing_loops, in_loop_orelse
 from sa.cfg import CFG
 
 PROP = "C02"
@@ -419,6 +419,57 @@ def _deps(expr, body_assigns, seen=None):
     return out
 
 
+def _columnwise_prefix(cx, rule, f, chunk, cp, assign):
+    """cp = tuple(col[0] for col in <columns> ...) with <columns> = zip(*P), P the productions of all alternatives of the chunk.
+         ... for col in itertools.takewhile(lambda col: <all entries of col equal>, zip(*P))      the leading run: recognised
+         ... for col in zip(*P) if <all entries of col equal>                                      every agreeing position: refuted
+    -> True when a verdict (either way) was recorded."""
+    from sa.guards import reaching_def
+    st, v = assign
+    while isinstance(v, ast.Call) and call_name(v) in ("list", "tuple") and len(v.args) == 1 and not v.keywords:
+        v = v.args[0]
+    if not (isinstance(v, (ast.GeneratorExp, ast.ListComp)) and len(v.generators) == 1 and isinstance(v.generators[0].target, ast.Name)):
+        return False
+    g = v.generators[0]
+    col = g.target.id
+    if norm(v.elt) != f"{col}[0]":
+        return False
+
+    def is_columns(e):
+        if not (isinstance(e, ast.Call) and call_name(e) == "zip" and len(e.args) == 1 and isinstance(e.args[0], ast.Starred) and not e.keywords):
+            return False
+        P = e.args[0].value
+        if isinstance(P, ast.Name):
+            r = reaching_def(P.id, st, calls=True, containers=True)
+            P = r[0] if r is not None else P
+        return isinstance(P, (ast.ListComp, ast.GeneratorExp)) and len(P.generators) == 1 and not P.generators[0].ifs and norm(P.generators[0].iter) == chunk \
+            and norm(P.elt) == f"{norm(P.generators[0].target)}.production"
+
+    def all_equal(t, var):
+        """`t` says that every entry of column `var` equals the first one"""
+        if isinstance(t, ast.Call) and call_name(t) == "all" and len(t.args) == 1 and isinstance(t.args[0], ast.GeneratorExp) and len(t.args[0].generators) == 1:
+            gg = t.args[0].generators[0]
+            if isinstance(gg.target, ast.Name) and not gg.ifs and norm(gg.iter) in (var, f"{var}[1:]"):
+                return canon_test(t.args[0].elt) == {("==", *sorted((gg.target.id, f"{var}[0]")), True)}
+        if isinstance(t, ast.Compare) and len(t.ops) == 1 and isinstance(t.ops[0], ast.Eq):
+            return {norm(t.left), norm(t.comparators[0])} == {f"len(set({var}))", "1"}
+        return False
+    it = g.iter
+    if is_columns(it):
+        if len(g.ifs) == 1 and all_equal(g.ifs[0], col):
+            cx.ob(rule, st, False, f"`{cp}` collects EVERY position at which all alternatives agree (`... for {col} in zip(*productions) if <all equal>`), not only the leading run: "
+                  "with alternatives that differ in the middle and agree again later, the factored 'prefix' is not a prefix of the alternatives - the group production "
+                  "then derives sentences the user's productions do not, and rejects theirs")
+            return True
+        return False
+    if isinstance(it, ast.Call) and dotted(it.func) in ("itertools.takewhile", "takewhile") and len(it.args) == 2 and is_columns(it.args[1]) and not g.ifs:
+        pred = it.args[0]
+        if isinstance(pred, ast.Lambda) and len(pred.args.args) == 1 and all_equal(pred.body, pred.args.args[0].arg):
+            cx.ob(rule, st, True, "the prefix is the leading run of positions at which all alternatives agree (takewhile over the transposed alternatives; zip stops at the shortest)")
+            return True
+    return False
+
+
 def common_prefix_rule(cx, rule):
     """_factorize_common_prefix_prods replaces  X -> p a1 | p a2 | ..  by  X -> p X'  with  X' -> a1 | a2 | ..  The language
     (and every derivation) is kept only if p is a prefix of EVERY alternative of the group.  Decided structurally:
@@ -438,6 +489,11 @@ def common_prefix_rule(cx, rule):
     assigns = [(st, v) for st, v in assignments(f, cp) if v is not None]
     cx.need(assigns, rule, f, f"assignments of `{cp}`")
     loops = [l for l in f.body if isinstance(l, ast.For) and chunk in names_in(l.iter)]
+    # ---- column-wise form: the alternatives are transposed with zip(*productions) and the prefix is read off the columns
+    if len(assigns) == 1 and not loops:
+        r_ = _columnwise_prefix(cx, rule, f, chunk, cp, assigns[0])
+        if r_:
+            return
     # ---- the prefix may be represented by its length: `cp = <candidate>[:L]` after a loop that updates L
     in_loop = [(st, v) for st, v in assigns if any(a is l for l in loops for a in ancestors(st))]
     len_var = None
